@@ -32,6 +32,16 @@ NEEDS = {
  'C20-is-exposed-parent-only': 'a cloud-safe run failing on a configured path inside a directory that does not exist (two missing trailing components)',
  'C20-bracketed-path-in-worker-error': 'cloud-safe mapping run failing through a worker failure: the new message puts the path right after "(name=" so the whitespace-splitting sanitiser does not see it',
 }
+HISTORY = {
+ 'C19-cleanup-after-output': 'OBSERVED MISS by the first version of C19 (parent I/O faults only reached the first 12 write events and no invalid input was planted); C19 was strengthened (fault position drawn over ALL write events of the clean run; invalid-input failure classes for mapping) and now catches it',
+ 'C03-topk-unsigned-votes': 'predicted miss (generated taxonomies had at most 10 leaves); wide taxonomies (36/48 leaves) were added to the world generator before the check was run against it',
+ 'C06-relative-norm-floor': 'predicted miss (C06 only used raw 64-bit queries); declared-normalised queries with outlier cells and 32-bit floats were added before the check was run against it',
+ 'C07-cpm-guard-maximum': 'predicted miss (scale factors were within 2^-3..2^5); scale factors down to 2^-40 / 1e-9 were added before the check was run against it',
+ 'C13-early-skip-before-slice-shift': 'predicted miss (largest matrices were 25x14); short-wide and tall-narrow matrices with > 100 entries were added before the check was run against it',
+ 'C15-name-cache-by-label': 'predicted miss (generated name tables gave the same name to a label at every level); names now differ per level',
+ 'C16-round-half-away-vs-dtype': 'predicted miss (boundary values were positive only); negative ties at type boundaries were added',
+ 'C18-flat-previously-assigned': 'predicted miss for C18 (its worlds never re-used labels across levels; C01 caught it already); shared labels enabled in C18 worlds',
+}
 for name, needs in NEEDS.items():
     d = os.path.join(VERIF, 'seeded', name)
     if not os.path.isdir(d):
@@ -40,6 +50,7 @@ for name, needs in NEEDS.items():
     meta = json.load(open(mp)) if os.path.exists(mp) else {}
     meta['property'] = name.split('-')[0]
     meta['needs'] = needs
+    meta['history'] = HISTORY.get(name, 'caught by the check as it stood when the change arrived')
     meta['origin'] = ('written by an independent sub-agent that was given only the property text and a scratch git '
                       'worktree of /repo (see notes.md for its own account)')
     json.dump(meta, open(mp, 'w'), indent=1)
